@@ -49,7 +49,7 @@ WaitDone == /\ Is("cvWaitDone") /\ Ev.a = 0 /\ live = 0 /\ KeepA
 CtxDestroy == /\ Is("cvCtxDestroy")
               /\ (Ev.x \in aliveCtx) => (live = 0 /\ Len(begunOn) = reported)
               /\ aliveCtx' = aliveCtx \ {Ev.x} /\ UNCHANGED <<live, begunOn, keptSize, registered, reported>>
-Other == /\ l <= Len(Tr) /\ Ev.e \in {"samples", "end"} /\ l' = l + 1 /\ KeepA
+Other == /\ l <= Len(Tr) /\ Ev.e \in {"samples", "end", "fault"} /\ l' = l + 1 /\ KeepA
 TNext == Train \/ TBegin \/ CtxInit \/ Start \/ JobBegin \/ Finish \/ WaitDone \/ CtxDestroy \/ Other
 Track == IF l > TLCGet(1) THEN TLCSet(1, l) ELSE TRUE
 TraceAccepted == IF TLCGet(1) = Len(Tr) + 1 THEN TRUE
